@@ -556,6 +556,8 @@ where
     #[inline]
     fn add_node(&self, node: N) -> AllocResult<[Edge<'id, N, ET>; 2]> {
         debug_assert_eq!(node.load_rc(Relaxed), 2);
+        #[cfg(oxidd_verif)]
+        oxidd_core::verif::yield_point("mi:add_node");
         let res = LOCAL_STORE_STATE.with(|state| {
             let node_count_delta = if state.current_store.get() == addr(self) {
                 let delta = state.node_count_delta.get() + 1;
@@ -633,6 +635,8 @@ where
         local: &LocalStoreState,
         delta: i32,
     ) -> AllocResult<(u32, &mut Slot<N>)> {
+        #[cfg(oxidd_verif)]
+        oxidd_core::verif::yield_point("mi:get_slot_from_shared:before-state-lock");
         let mut shared = self.state.lock();
 
         shared.node_count += delta as i64;
@@ -751,6 +755,8 @@ where
                     shared.next_free.push(id);
                     shared.node_count -= 1;
                 }
+                #[cfg(oxidd_verif)]
+                oxidd_core::verif::yield_point("mi:free_slot:foreign:before-state-lock");
                 return_slot(&self.state, slot, id);
             }
         });
@@ -767,6 +773,8 @@ where
     #[inline]
     fn drop_edge(&self, edge: Edge<'id, N, ET>) {
         let id = edge.node_id();
+        #[cfg(oxidd_verif)]
+        oxidd_core::verif::yield_point("mi:drop_edge");
         if id >= TERMINALS {
             // inner node
             let node = self.inner_nodes.inner_node(&edge);
@@ -787,6 +795,8 @@ where
     #[inline]
     fn clone_edge(&self, edge: &Edge<'id, N, ET>) -> Edge<'id, N, ET> {
         let id = edge.node_id();
+        #[cfg(oxidd_verif)]
+        oxidd_core::verif::yield_point("mi:clone_edge");
         if id >= TERMINALS {
             // inner node
             self.inner_nodes.inner_node(edge).retain();
@@ -807,6 +817,8 @@ where
 {
     fn drop(&mut self) {
         let manager = self.manager.get_mut();
+        #[cfg(oxidd_verif)]
+        oxidd_core::verif::LIVE_STORES.fetch_sub(1, Relaxed);
         // We don't care about reference counters from here on.
         // SAFETY: We don't use `manager.data` again.
         unsafe { ManuallyDrop::take(&mut manager.data) }.drop_with(std::mem::forget);
@@ -1027,6 +1039,8 @@ where
         let Some(set) = self.unique_table.get(level as usize) else {
             return false;
         };
+        #[cfg(oxidd_verif)]
+        oxidd_core::verif::yield_point("mi:try_remove_node:between-release-and-lock");
         let mut set = set.lock();
 
         // Read the reference count again: Another thread may have created an
@@ -1207,6 +1221,8 @@ where
     #[track_caller]
     #[inline(always)]
     fn level(&self, no: LevelNo) -> Self::LevelView<'_> {
+        #[cfg(oxidd_verif)]
+        oxidd_core::verif::yield_point("mi:level:before-lock");
         LevelView {
             store: self.store(),
             var_level_map: &self.var_level_map,
@@ -1218,6 +1234,8 @@ where
 
     #[inline(always)]
     unsafe fn level_unchecked(&self, no: LevelNo) -> Self::LevelView<'_> {
+        #[cfg(oxidd_verif)]
+        oxidd_core::verif::yield_point("mi:level:before-lock");
         LevelView {
             store: self.store(),
             var_level_map: &self.var_level_map,
@@ -1262,6 +1280,8 @@ where
         }
         self.gc_count.fetch_add(1, Relaxed);
         let guard = AbortOnDrop("Garbage collection panicked.");
+        #[cfg(oxidd_verif)]
+        oxidd_core::verif::yield_point("mi:gc:start");
 
         #[cfg(feature = "statistics")]
         eprintln!(
@@ -1279,6 +1299,8 @@ where
         let store = self.store();
         let mut collected = 0;
         for level in &self.unique_table {
+            #[cfg(oxidd_verif)]
+            oxidd_core::verif::yield_point("mi:gc:before-level-lock");
             let mut level = level.lock();
             collected += level.len() as u32;
             // SAFETY: We prepared the garbage collection, hence there are no
@@ -1286,6 +1308,8 @@ where
             unsafe { level.gc(store) };
             collected -= level.len() as u32;
         }
+        #[cfg(oxidd_verif)]
+        oxidd_core::verif::yield_point("mi:gc:before-terminal-gc");
         collected += store.terminal_manager.gc();
 
         if !self.reorder_gc_prepared {
@@ -1294,6 +1318,8 @@ where
         }
         self.gc_ongoing.unlock();
         guard.defuse();
+        #[cfg(oxidd_verif)]
+        oxidd_core::verif::yield_point("mi:gc:end");
 
         #[cfg(feature = "statistics")]
         eprintln!(
@@ -2307,6 +2333,8 @@ pub fn new_manager<
         workers: crate::workers::Workers::new(threads),
     });
 
+    #[cfg(oxidd_verif)]
+    oxidd_core::verif::LIVE_STORES.fetch_add(1, Relaxed);
     let mut manager = arc.manager.exclusive();
     manager.store = Arc::as_ptr(&arc);
     drop(manager);
@@ -2451,6 +2479,8 @@ impl<
     #[inline]
     fn drop(&mut self) {
         // SAFETY: `self.edge` is never used again.
+        #[cfg(oxidd_verif)]
+        oxidd_core::verif::yield_point("mi:function:drop");
         let edge = unsafe { ManuallyDrop::take(&mut self.edge) };
         self.store.0.drop_edge(edge);
     }
